@@ -111,6 +111,7 @@ func c9Scripted() []c9scenario {
 		{"reorg", scenReorg},
 		{"side-tips", scenSideTips},
 		{"twin-side-blocks", scenTwinSideBlocks},
+		{"twin-ts-side-blocks", scenTwinTsSideBlocks},
 		{"expiry", scenExpiry},
 		{"size-cap", scenSizeCap},
 	}
